@@ -262,6 +262,21 @@ class ChainSuite(Suite):
                 res["iter"] = [ident(t) for t in obj]
                 if case["map"] and case["via"] != "chain":
                     res["map"] = [float(v) for v in obj.map(root_x, max_worker=2)]
+                # a transform mapped over a population: one tree per member, in order, each the transform of its member
+                from swcgeom.transforms import Translate
+                from swcgeom.transforms.population import PopulationTransform
+
+                if case["via"] != "chain" and len(obj):
+                    moved = PopulationTransform(Translate(0.5, 0.0, 0.0))(obj)
+                    res["mapped"] = {"len": len(moved), "x": [float(tt.x()[0]) for tt in moved], "src_same": [os.path.basename(a.source) == os.path.basename(b.source) for a, b in zip(moved, obj)]}
+                # ESWC directories
+                ed = os.path.join(tmp, "eswc")
+                os.makedirs(ed, exist_ok=True)
+                for k in range(3):
+                    with open(os.path.join(ed, f"e{k}.eswc"), "w") as f:
+                        f.write(f"1 1 {k} 0 0 1 -1 0 1 2 3 {10 + k}\n2 3 {k} 1 0 1 1 0 1 2 3 {20 + k}\n")
+                ep = Population.from_eswc(ed)
+                res["eswc"] = {"len": len(ep), "fv": [[float(v) for v in tt.get_ndata("feature_value")] for tt in ep], "x": [float(tt.x()[0]) for tt in ep]}
                 # rows of same-named files across directories
                 same = os.path.join(tmp, "same")
                 names = ["a.swc", "b.swc", "c.swc", "only1.swc", "sub/n1.swc", "sub/deep/n2.swc", "sub/only1b.swc"]
@@ -308,6 +323,13 @@ class ChainSuite(Suite):
             out.append(("chain-iter", f"iteration {res['iter']} ≠ concatenation {conc}"))
         if "map" in res and [int(round(v)) for v in res["map"]] != conc:
             out.append(("map-order", f"map returned {res['map']}, trees in order are {conc}"))
+        if "mapped" in res:
+            m_ = res["mapped"]
+            if m_["len"] != total or [round(v - 0.5) for v in m_["x"]] != conc or not all(m_["src_same"]):
+                out.append(("map-order", f"PopulationTransform gives {m_['len']} trees with markers {m_['x']}, members are {conc}"))
+        e_ = res["eswc"]
+        if e_["len"] != 3 or sorted(e_["x"]) != [0.0, 1.0, 2.0] or sorted(map(tuple, e_["fv"])) != [(10.0, 20.0), (11.0, 21.0), (12.0, 22.0)]:
+            out.append(("population-eswc", f"Population.from_eswc: {e_}"))
         want = ["a.swc", "b.swc", "c.swc", "sub/deep/n2.swc", "sub/n1.swc"]
         if res["rows_len"] != len(want) or any(len(set(r)) != 1 for r in res["rows"]) or sorted(r[0] for r in res["rows"]) != want:
             out.append(("populations-rows", f"rows of Populations.from_swc (root spelling {res.get('root_style')}): {res['rows']}; the files present under both roots are {want}"))
